@@ -315,7 +315,8 @@ Definition is_upper_letter (c : Z) : bool := (65 <=? c) && (c <=? 90).
 
 (** ---- sqlframe's function, parametrised by what the source decides: the replacement table and the letters that are
          skipped without forgetting the last code ---- *)
-Record soundex_cfg := mkSoundex { sx_table : list (list Z * Z); sx_transparent : list Z }.
+Record soundex_cfg := mkSoundex { sx_table : list (list Z * Z); sx_transparent : list Z; sx_nonletter_first_unchanged : bool }.
+  (* the last field: `if not 'A' <= s[0] <= 'Z': return <the original string>` after upper-casing *)
 Fixpoint sx_code_of (t : list (list Z * Z)) (c : Z) : option Z :=
   match t with [] => None | (letters, code) :: r => if existsb (Z.eqb c) letters then Some code else sx_code_of r c end.
 Definition sx_classify_duck (cfg : soundex_cfg) (c : Z) : sxclass :=
@@ -326,7 +327,9 @@ Definition sx_classify_duck (cfg : soundex_cfg) (c : Z) : sxclass :=
 Definition duck_soundex (cfg : soundex_cfg) (s : list Z) : list Z :=
   match map ascii_upper s with
   | [] => []
-  | f :: rest => sx_pad (sx_loop (sx_classify_duck cfg) rest (sx_code_of (sx_table cfg) f) 1 [f])
+  | f :: rest =>
+      if sx_nonletter_first_unchanged cfg && negb (is_upper_letter f) then s
+      else sx_pad (sx_loop (sx_classify_duck cfg) rest (sx_code_of (sx_table cfg) f) 1 [f])
   end.
 
 (** ---- Spark (UTF8String.soundex, US_ENGLISH_MAPPING): code '0' for A E I O U Y, '7' for H W ---- *)
@@ -349,7 +352,7 @@ Definition spark_soundex (s : list Z) : list Z :=
 
 Definition soundex_std : soundex_cfg :=
   mkSoundex [([66; 70; 80; 86], 49); ([67; 71; 74; 75; 81; 83; 88; 90], 50); ([68; 84], 51); ([76], 52); ([77; 78], 53); ([82], 54)]
-            [72; 87].
+            [72; 87] true.
 Fixpoint lz_eqb (a b : list Z) : bool :=
   match a, b with [], [] => true | x :: a', y :: b' => (x =? y) && lz_eqb a' b' | _, _ => false end.
 Lemma lz_eqb_eq : forall a b, lz_eqb a b = true -> a = b.
@@ -369,6 +372,7 @@ Proof.
 Qed.
 Definition soundex_cfg_ok (c : soundex_cfg) : bool :=
   tbl_eqb (sx_table c) (sx_table soundex_std) && lz_eqb (sx_transparent c) (sx_transparent soundex_std).
+Definition soundex_cfg_exact (c : soundex_cfg) : bool := soundex_cfg_ok c && sx_nonletter_first_unchanged c.
 
 (** the two classifications agree on every character (the Python side sees the upper-cased character) *)
 Definition letters52 : list Z := map Z.of_nat (seq 65 26 ++ seq 97 26).
@@ -421,14 +425,21 @@ Qed.
 Definition starts_with_letter (s : list Z) : bool :=
   match s with [] => true | b :: _ => is_upper_letter (ascii_upper b) end.
 
+Lemma classify_duck_std : forall t tr g c, t = sx_table soundex_std -> tr = sx_transparent soundex_std ->
+  sx_classify_duck (mkSoundex t tr g) c = sx_classify_duck soundex_std c.
+Proof. intros t tr g c -> ->. reflexivity. Qed.
+
 Theorem soundex_ok : forall cfg, soundex_cfg_ok cfg = true ->
   forall s, starts_with_letter s = true -> duck_soundex cfg s = spark_soundex s.
 Proof.
-  intros [t tr] H s Hs. unfold soundex_cfg_ok in H; simpl in H. apply andb_prop in H as [H1 H2].
-  apply tbl_eqb_eq in H1. apply lz_eqb_eq in H2. subst t tr. fold soundex_std.
+  intros [t tr g] H s Hs. unfold soundex_cfg_ok in H; cbn [sx_table sx_transparent] in H. apply andb_prop in H as [H1 H2].
+  apply tbl_eqb_eq in H1. apply lz_eqb_eq in H2.
   destruct s as [|b rest]; [reflexivity|]. simpl in Hs.
-  unfold duck_soundex, spark_soundex. cbn [map]. rewrite Hs. f_equal.
-  rewrite (sx_loop_ext (sx_classify_duck soundex_std) sx_classify_spark ascii_upper classify_agree).
+  unfold duck_soundex, spark_soundex. cbn [map sx_nonletter_first_unchanged sx_table]. rewrite Hs.
+  rewrite andb_false_r. f_equal.
+  rewrite (sx_loop_ext (sx_classify_duck (mkSoundex t tr g)) sx_classify_spark ascii_upper
+             (fun c => eq_trans (classify_duck_std t tr g (ascii_upper c) H1 H2) (classify_agree c))).
+  subst t.
   (* the code remembered for the first letter *)
   pose proof (classify_agree b) as Hb. unfold sx_classify_duck, sx_classify_spark in Hb. rewrite Hs in Hb.
   destruct (sx_code_of (sx_table soundex_std) (ascii_upper b)) as [code|] eqn:Ec.
@@ -441,8 +452,17 @@ Proof.
       destruct (existsb (Z.eqb (ascii_upper b)) (sx_transparent soundex_std)); discriminate.
 Qed.
 
+(** with the early return for a first character that is not a letter: every string *)
+Theorem soundex_exact : forall cfg, soundex_cfg_exact cfg = true -> forall s, duck_soundex cfg s = spark_soundex s.
+Proof.
+  intros cfg H s. unfold soundex_cfg_exact in H. apply andb_prop in H as [Hok Hg].
+  destruct (starts_with_letter s) eqn:Hs; [exact (soundex_ok cfg Hok s Hs)|].
+  destruct s as [|b rest]; [discriminate|]. simpl in Hs.
+  unfold duck_soundex, spark_soundex. cbn [map]. rewrite Hg, Hs. reflexivity.
+Qed.
+
 (** without the H / W rule (transparent = []) Ashcraft is coded A226 instead of A261 *)
 Theorem soundex_without_hw_rule :
-  duck_soundex (mkSoundex (sx_table soundex_std) []) [65; 115; 104; 99; 114; 97; 102; 116] = [65; 50; 50; 54]
+  duck_soundex (mkSoundex (sx_table soundex_std) [] true) [65; 115; 104; 99; 114; 97; 102; 116] = [65; 50; 50; 54]
   /\ spark_soundex [65; 115; 104; 99; 114; 97; 102; 116] = [65; 50; 54; 49].
 Proof. split; vm_compute; reflexivity. Qed.
